@@ -365,6 +365,54 @@ def shard_loop_gate(prop: str, tier: str, seed: int, n: int) -> dict[str, Any]:
     return c.export()
 
 
+def shard_child_gate(prop: str, tier: str, seed: int, n: int) -> dict[str, Any]:
+    """The gate is a before-stage (declared with the workflow) of a stage, alone or beside a sibling before-stage that finishes:
+    it stays suspended however long the signal takes (nothing polls itself into giving up meanwhile), and the signal releases it."""
+    c = Campaign(prop, tier, seed, LEVEL)
+    variants = {
+        "alone": {"before": ["suspend"], "after": [], "parallel": False, "pre": True},
+        "beside-sibling": {"before": ["suspend", "ok"], "after": [], "parallel": True, "pre": True},
+        "after-sibling": {"before": ["ok", "suspend"], "after": ["ok"], "parallel": True, "pre": True},
+    }
+
+    def one(vn: str, sd: dict[str, Any]) -> None:
+        syn = variants[vn]
+        gi = syn["before"].index("suspend")
+        spec = {"name": f"child-gate-{vn}", "stages": [stage("a", [], [ok()]), stage("p", ["a"], [ok()], syn=syn), stage("z", ["p"], [ok()])]}
+        tasks.reset_ledger()
+        run = Run(spec, make_schedule(sd))
+        run.drain()
+        mid = run.outcome()
+        child = f"p/before{gi}"
+        case = {"kind": "child-gate", "variant": vn, "schedule": sd, "spec": spec}
+        if mid["stages"].get(child) != "SUSPENDED" or mid["workflow"] in oracles.COMPLETE or mid["stages"].get("p") != "RUNNING":
+            c.violation(f"workflow-finished-past-closed-gate|before-child:{vn}", case,
+                        f"no signal was sent: gate child {child} is {mid['stages'].get(child)}, parent {mid['stages'].get('p')}, workflow {mid['workflow']}")
+        else:
+            inj_signal(f"p-before{gi}", "go", {"n": 1}, True)(run)
+            run.drain()
+            got = run.outcome()
+            nexec = got["counts"].get(f"{child}.t0", 0)
+            if got["workflow"] != "SUCCEEDED" or nexec != 2 or got["counts"].get("p.t0", 0) != 1:
+                c.violation(f"persistent-signal:child-gate-not-released|{vn}", case,
+                            f"after the signal: workflow {got['workflow']}, {child} executed {nexec}x (expected 2), parent task {got['counts'].get('p.t0', 0)}x, stages {got['stages']}")
+        c.case(("c18cg", vn, sd), True, ["child-gate", f"child-gate:{vn}"],
+               sample={"variant": vn, "schedule": sd, "workflow_while_waiting": mid["workflow"]} if sd["style"] == "fifo" else None)
+
+    for vn in variants:
+        one(vn, {"style": "fifo", "d": [], "R": 2})
+
+    @hseed(seed)
+    @settings(max_examples=n, database=None, deadline=None, derandomize=False, suppress_health_check=list(HealthCheck),
+              phases=[Phase.generate], report_multiple_bugs=False)
+    @given(st.sampled_from(sorted(variants)), schedule_desc(max_len=40))
+    def t(vn, sd):
+        one(vn, sd)
+
+    t()
+    return c.export()
+
+
 def shard_race(prop: str, tier: str, seed: int, name: str, P: int) -> dict[str, Any]:
     """SignalStage handled concurrently with the RunTask result that suspends the gate (statement-level interleaving)."""
     from checks import c07
@@ -397,6 +445,7 @@ def run(c: Campaign, jobs: int) -> None:
     args += [(shard_random, (c.prop, c.tier, c.seed * 1000 + k, max(1, n // shards))) for k in range(shards)]
     args += [(shard_multi, (c.prop, c.tier, c.seed * 1000 + 700 + k, max(1, (n // 2) // shards))) for k in range(shards)]
     args += [(shard_loop_gate, (c.prop, c.tier, c.seed * 1000 + 900 + k, 10 if quick else 300)) for k in range(2)]
+    args += [(shard_child_gate, (c.prop, c.tier, c.seed * 1000 + 950 + k, 10 if quick else 300)) for k in range(2)]
     for name in gate_specs():
         args.append((shard_crash, (c.prop, c.tier, c.seed, name, True)))
         args.append((shard_crash, (c.prop, c.tier, c.seed, name, False)))
@@ -415,7 +464,7 @@ def run(c: Campaign, jobs: int) -> None:
         "one signal per gate, except the two-signal shard (a gate suspending twice, two persistent signals, identical or not); SQLite only",
     ]
     for cls in ("persistent:NOT_STARTED", "persistent:RUNNING", "persistent:SUSPENDED", "transient:SUSPENDED", "transient:RUNNING", "crash", "unsignalled", "signal-race",
-                "signal-after-restart", "two-signals:identical", "gate-reactivated"):
+                "signal-after-restart", "two-signals:identical", "gate-reactivated", "child-gate"):
         if c.classes.get(cls, 0) == 0:
             c.harness_error(f"generator starvation: class {cls} never produced")
 
